@@ -62,12 +62,16 @@ def plans(tier):
         # single deviations in an undisturbed world
         P += [(1, "12", 1, 2, "Limits3", "FromAll", "SlicesQuick", 1, 0)]
         return P
+    # the room with a side branch and a merge, every registered version: every behaviour with at most two deviations
     for ver in VERSIONS:
         P += [(3, ver, 0, 2, "Limits0123", "FromAll", "SlicesAll", 2, 1)]
     for ver in ("1", "10", "12"):
-        P += [(3, ver, 0, 3, "Limits24", "FromAll", "SlicesAll", 3, 1),     # three servers, three deviations
-              (1, ver, 1, 2, "Limits123", "FromAll", "SlicesAll", 2, 1),     # every room with one more event
-              (2, ver, 0, 2, "Limits0135", "FromTip", "SlicesAll", 2, 2)]    # second prefix, two deviations of the world
+        P += [(3, ver, 0, 3, "Limits24", "FromAll", "SlicesAll", 3, 0),     # three servers, three deviations of the protocol
+              (1, ver, 1, 2, "Limits3", "FromAll", "SlicesAll", 1, 1),      # every room with one more event, single deviations
+              (2, ver, 0, 2, "Limits0135", "FromTip", "SlicesAll", 2, 2)]   # second prefix, up to two deviations of the world
+    for ver in ("10", "12"):
+        P += [(1, ver, 1, 2, "Limits2", "FromAll", "SlicesAll", 2, 0)]      # every room with one more event, two deviations
+    P += [(3, "10", 0, 3, "Limits3", "FromTip", "SlicesAll", 3, 1)]         # three deviations, one of them in the world
     return P
 
 
@@ -108,6 +112,7 @@ def _coverage(recs):
         seen.add("err=" + r["out"]["err"])
         seen.add("errloose=%s" % r["out"]["errloose"])
         seen.add("limit0" if r["limit"] == 0 else "limit+")
+        seen.add("room-of-%d-events" % len(r["events"]))
         if len(r["out"]["events"]) > r["limit"] > 0:
             seen.add("more-than-limit")
         for e in r["events"]:
@@ -223,7 +228,8 @@ def run(ctx):
                 seen.add(k)
                 recs.append(rec)
     cov = _coverage(recs)
-    dead = sorted((WANT | ({"answer=gap"} if tier == "thorough" else set())) - cov)
+    # (Grow: rooms of 7 events are rooms the room model built on top of the first creation prefix)
+    dead = sorted((WANT | {"room-of-7-events", "room-of-10-events"} | ({"answer=gap", "room-of-8-events"} if tier == "thorough" else set())) - cov)
     if dead:
         raise MachineryError("Backfill.tla: within the bounds of the %s tier no behaviour shows %s (dead action / disjunct)" % (tier, dead))
     ctx.log("Backfill: %d distinct behaviours from %d plans; record-derived coverage complete (%d features)" % (len(recs), len(ps), len(cov)))
